@@ -819,3 +819,38 @@ def py_encoding_agrees(ctx, type_path, variants):
                     '%s::%s is written as "%s", which extract_bound reads as %s: a value that went through Python comes back as another one' % (
                         short, var, l_, sorted(rt.get(l_) or ['an error'])), w.span)
     ctx.require(len(set(wt.values())) == len(variants), w, 'py-letters-distinct|' + short, 'the variants of %s are written as different strings' % short, 'written as %s' % wt)
+
+
+def word_pattern_is_whitespace_only(ctx, body, what):
+    """text::SPLIT_WORD_WHITESPACE_PATTERN, the one pattern that cuts a text into the words BPE tokenization, BPE training and word counting work
+    on, is written with the classes `\\s` / `\\S` only (plus anchors, alternation, repetition, grouping): every character is either Unicode
+    White_Space or part of a word. A pattern that names further separators (`[\\s\\x{200B}]`, `[\\s\\x1c-\\x1f]`) makes characters that are not
+    whitespace disappear at the end of the text and cuts the words merges were learned on."""
+    st = ctx.facts.statics.get('text::SPLIT_WORD_WHITESPACE_PATTERN')
+    if st is None or not st.get('src'):
+        raise AnchorMissing('the source of the static text::SPLIT_WORD_WHITESPACE_PATTERN')
+    m = re.search(r'=\s*r(#*)"(.*)"\1\s*;\s*$', st['src'], re.S) or re.search(r'=\s*"(.*)"\s*;\s*$', st['src'], re.S)
+    if not m:
+        raise AnchorMissing('text::SPLIT_WORD_WHITESPACE_PATTERN as a string literal (`%s`)' % st['src'][:80])
+    raw = m.group(m.lastindex)
+    pat = raw if m.re.pattern.startswith('=\\s*r') else raw.replace('\\\\', '\\')
+    rest = re.sub(r'\\s|\\S|\(\?:|[()|^$+*?]|\{\d+(,\d*)?\}', '', pat)
+    ctx.require(rest == '', body, 'word-pattern|' + what, 'the word pattern `%s` is written with \\s / \\S only' % pat,
+                'the word pattern is `%s`: besides \\s / \\S it names `%s` -- characters that are not Unicode White_Space are treated as separators (dropped at the '
+                'end of a text, words cut where merges were learned across them)' % (pat, rest[:40]))
+
+
+def blocking_receives_only(ctx, root_path, what):
+    """the reducer of a fan-in (workers -> channel -> fold) takes every message with a blocking receive (`into_iter`, `iter`, `recv`): a
+    `recv_timeout` / `try_recv` / `try_iter` answers "nothing yet" the same way as "all senders are gone", so a pause of the workers ends the
+    fold early and the result is computed from a part of the input"""
+    n = 0
+    for b in ctx.facts.bodies:
+        if not (b.path == root_path or (b.kind == 'Closure' and ((getattr(b, 'root', None) == root_path) or (b.parent or '').startswith(root_path)))):
+            continue
+        for t in b.calls(r'mpsc::Receiver::(recv_timeout|try_recv|try_iter|recv_deadline)$'):
+            n += 1
+            ctx.fail(b, 'non-blocking-receive|' + what, '%s receives with `%s` (line %d): a timeout or an empty channel is taken for the end of the input, the result is '
+                     'computed from the messages that had arrived by then' % (what, (t.callee_res() or '').rsplit('::', 1)[-1], t.span['line']), t.span)
+    if n == 0:
+        ctx.ok(None, '%s: every channel receive blocks until a message or the disconnect' % what)
